@@ -34,7 +34,7 @@ def functions_encoded(group):
         'ival': ['Bounds::{add,sub,neg,scale,div_by,abs,intersection,from_variable_type}', 'lower_sum', 'upper_sum', 'required_bounds'],
         'stdk': ['float_{eq,ne,lt,gt,le,ge}', 'EqualityConstraint::new'],
         'tab': ['Tableau::step (find_h, find_t, pivot) from a symbolic canonical 2x3 tableau'],
-        'arith': ['<i64/u64/f64/bool as ApplyOp>::{apply_binary_op, apply_unary_op}', 'checked_i64', 'checked_u64', 'checked_div'],
+        'arith': ['<i64/u64/f64/bool as ApplyOp>::{apply_binary_op, apply_unary_op}', 'checked_i64', 'checked_u64', 'checked_div', 'Primitive::{as_integer_cast, as_usize_cast}'],
     }[group]
 
 
